@@ -16,6 +16,7 @@ import (
 	"strings"
 	"time"
 
+	amhelp "github.com/pancsta/asyncmachine-go/pkg/helpers"
 	am "github.com/pancsta/asyncmachine-go/pkg/machine"
 
 	"verifsim/core"
@@ -34,11 +35,12 @@ const (
 	opEval
 	opNoop // Add of an already active set / health-like
 	opHealth
+	opCantAdd // amhelp.CantAdd: a blocking check
 )
 
 func (k opKind) String() string {
 	return [...]string{"Add", "Remove", "Set", "Toggle", "AddErr", "CanAdd",
-		"CanRemove", "Eval", "Noop", "Health"}[k]
+		"CanRemove", "Eval", "Noop", "Health", "CantAdd"}[k]
 }
 
 type mwOp struct {
@@ -747,6 +749,13 @@ func (w *mw) exec(task string, op mwOp, fromHandler bool) *opRec {
 			r.res = m.CanAdd(op.states, args)
 		case opCanRemove:
 			r.res = m.CanRemove(op.states, args)
+		case opCantAdd:
+			// blocks until the check has been processed (or abandoned)
+			if amhelp.CantAdd(m, op.states, args) {
+				r.res = am.Canceled
+			} else {
+				r.res = am.Executed
+			}
 		case opEval:
 			ok := m.Eval("ev-"+op.id, func() {
 				r.evalRan = true
@@ -768,6 +777,24 @@ func (w *mw) exec(task string, op mwOp, fromHandler bool) *opRec {
 	r.retStep = w.s.Step()
 	r.txA = len(w.txs)
 	if w.s.Stopped() {
+		return r
+	}
+	// (a call that was released by the disposal itself returns while doDispose
+	// still sleeps with the machine's locks held: nothing to read then)
+	gone := false
+	select {
+	case <-m.WhenDisposed():
+		gone = true
+	default:
+		// (the getters with a disposing guard answer nothing from the moment
+		// disposal begins; QueueTick has no such guard and would wait)
+		gone = len(m.Time(nil)) == 0
+	}
+	if gone {
+		w.s.Logf("%s %s -> %v%s | disposed", task, op, r.res, r.panicked)
+		for _, f := range w.onOpDone {
+			f(r)
+		}
 		return r
 	}
 	if !fromHandler {
